@@ -174,7 +174,8 @@ class Env:
     # -- quiescence / snapshots ------------------------------------------------------------------------------
     def quiesce(self, responses):
         """Wait (bounded) until asynchronous work started by an ACCEPTED request is finished."""
-        deadline = time.time() + 8
+        deadline = time.time() + 4
+        settled = True
         for p in responses:
             if p.status and p.status < 300 and b'InvocationState>Wait<' in p.body_plain:
                 m = re.search(rb'TransactionId>(\d+)<', p.body_plain)
@@ -186,12 +187,19 @@ class Env:
                             break
                         time.sleep(0.001)
                     else:
-                        self.ctx.not_decided(f'operation transaction {tid} did not reach a final state within the watchdog')
+                        self.ctx.count('quiesce.operation_without_final_state')
+                        self.ctx.extra.setdefault('operation_without_final_state', [])
+                        if len(self.ctx.extra['operation_without_final_state']) < 3:
+                            self.ctx.extra['operation_without_final_state'].append(
+                                {'transaction': tid, 'states': self.op_states.get(tid), 'request': self.current_request[:1500].decode('latin-1')})
+                        settled = False
+                        time.sleep(0.3)
         if self.deferred:
             ev = threading.Event()
             self.consumer._services_dispatcher._queue.put((lambda _req: ev.set(), None, 'barrier'))
             if not ev.wait(8):
                 self.ctx.not_decided('deferred dispatcher did not reach the barrier within the watchdog')
+        return settled
 
     def snapshot(self):
         E = self.E
@@ -461,11 +469,11 @@ def m_structure(rng, env, seed):
     return render(seed, xml=doc), {'mut': f's.{kind}', 'doc': doc}
 
 
-def m_path(rng, env, seed):
+def m_path(rng, env, seed, kind=None):
     p = seed['path']
     parts = p.split('/')
-    kind = rng.choice(['depth_less', 'depth_more', 'unknown_first', 'double_slash', 'query', 'long', 'nonascii', 'other_service', 'root', 'star',
-                       'absolute_uri', 'dots', 'get_on_post_path', 'post_on_get_path'])
+    kind = kind or rng.choice(['depth_less', 'depth_more', 'unknown_first', 'double_slash', 'query', 'long', 'nonascii', 'other_service', 'root', 'star',
+                       'absolute_uri', 'dots', 'get_on_post_path', 'post_on_get_path', 'query_only', 'query_only'])
     method = seed['method']
     xml = seed['xml']
     if kind == 'depth_less':
@@ -493,6 +501,10 @@ def m_path(rng, env, seed):
         p = 'http://127.0.0.1:50001' + p
     elif kind == 'dots':
         p = '/../' + p
+    elif kind == 'query_only':
+        p = rng.choice(['?wsdl', '?' + p[1:], '#x', '?'])
+        if rng.random() < 0.5:
+            method, xml = 'GET', b''
     elif kind == 'get_on_post_path':
         method, xml = 'GET', b''
     elif kind == 'post_on_get_path':
@@ -841,6 +853,7 @@ ESCAPE_KEYS = {
     ('decompress_payload', 'error'): ('coding.corrupt_body_escapes', 'corrupt compressed body: decoder exception leaves do_POST, no response'),
     ('decompress_payload', 'RuntimeError'): ('coding.corrupt_body_escapes', 'corrupt compressed body: decoder exception leaves do_POST, no response'),
     ('decompress_payload', 'TypeError'): ('coding.no_body_escapes', 'Content-Encoding without a body: decompress(None) TypeError leaves do_POST'),
+    ('get_first_path_element', 'IndexError'): ('path.empty_path_escapes', 'request target without a path (e.g. "?x"): IndexError in get_first_path_element leaves do_POST/do_GET'),
     ('get_instance', 'InvalidPathError'): ('get.invalid_path_escapes', 'GET for an unknown first path element: InvalidPathError leaves do_GET, no response'),
 }
 
@@ -884,6 +897,7 @@ def run_case(env: Env, ctx, role, raw, info, seed_name):
     env.watch_trees = bool(info.get('doctype'))
     env.line_budget.reset()
     before = env.last_snap if env.last_snap is not None else env.snapshot()
+    env.current_request = raw
     res = L.feed(srv, raw, handler_cls=env.handler_cls)
     ctx.count('requests.' + role)
     ctx.count('mut.' + mut.split('.')[0])
@@ -1028,9 +1042,9 @@ def run_case(env: Env, ctx, role, raw, info, seed_name):
             if CANARY_TEXT in t or EXPANDED.encode() in t:
                 ctx.witness('xxe.entity_expanded_in_tree', 'parsed request tree contains expanded entity text', {**detail, 'tree': t[:600]})
     # ---- (8) rejected => nothing changed
-    env.quiesce(plain_bodies)
+    settled = env.quiesce(plain_bodies)
     after = env.snapshot()
-    env.last_snap = after
+    env.last_snap = after if settled else None
     rejected = (not plain_bodies) or all(p.status >= 400 or contains_fault(p.body_plain) for p in plain_bodies)
     if rejected:
         ctx.count('monitor.rejected_snapshots_compared')
@@ -1067,6 +1081,10 @@ def _directed(env, rng):
             out.append((s, lambda r, e, sd, k=k: m_framing(r, e, sd, k)))
         for k in DOCTYPE_KINDS:
             out.append((s, lambda r, e, sd, k=k: m_doctype(r, e, sd, k)))
+    gets = [s for s in env.seeds if s['method'] == 'GET'][:1]
+    for s in list(post.values()) + gets:
+        for k in ('query_only', 'query_only', 'query_only', 'unknown_first', 'root', 'star', 'depth_less', 'other_service'):
+            out.append((s, lambda r, e, sd, k=k: m_path(r, e, sd, k)))
     for s in env.seeds:
         out.append((s, m_valid))
     return out
